@@ -5,6 +5,7 @@ import Torf.Model.QueryString
 import Torf.Model.PyStrip
 import Torf.Model.PyInt
 import Torf.Model.UrlAttrs
+import Torf.Model.KeyVocabulary
 open Lean Torf Torf.Bencode Torf.Untrusted
 namespace Driver.C08
 
@@ -49,6 +50,29 @@ def mkEnv (j : Json) : Except String Env := do
 def documentedRead : List String := ["ok", "bdecode", "metainfo", "read"]
 def documentedReturned : List String := ["ok", "metainfo"]
 
+/-- `read_stream` / `read` of the model by entry point -/
+def readHow (env : Env) (how : String) (x : Bytes) (validate : Bool) : Except Err Items :=
+  match how with
+  | "bytes" => read env x validate
+  | "stream" => readStreamObj env (.data x) validate
+  | "stream-oserror" => readStreamObj env .raisesOS validate
+  | "file" => readFile env (.opened (.data x)) validate
+  | "file-oserror" => readFile env (.opened .raisesOS) validate
+  | _ => readFile env .openFails validate
+
+/-- the outcomes `C08_unknown_key_irrelevant` speaks about: kind of the read and of validate() of the returned
+    torrent; third: kind of infohash (the bytes that are hashed hold every key of `info`, so a value that cannot
+    be encoded under an unknown key of `info` changes it: independent of unknown *top-level* keys only) -/
+def knownView (env : Env) (how : String) (x : Bytes) (validate : Bool) : List String :=
+  match readHow env how x validate with
+  | .error e => [errStr e]
+  | .ok t => ["ok", kindOf (validateT env t), kindOf (infohashT env t)]
+
+/-- op `c08.keys`: the vocabulary of the model (`Model/KeyVocabulary.lean`) -/
+def keysOp (_ : Json) : Except String Json :=
+  return jobj [("top", jarr (Validate.topKeys.map jstr)), ("info", jarr (Validate.infoKeys.map jstr)),
+               ("file", jarr (Validate.fileKeys.map jstr))]
+
 /-- op `c08.read`: {x, validate, how, mem, decFuel, encFuel, encFuelNV, cd, urls} ↦ the model's
     outcome of read_stream / read and, for a returned torrent, of validate(), dump() and
     dump(validate=False); the documented sets (spec); the hypotheses of the theorems -/
@@ -58,14 +82,17 @@ def readOp (j : Json) : Except String Json := do
   let how := (j.getObjValAs? String "how").toOption.getD "bytes"
   let env ← mkEnv j
   let envNV : Env := { env with encFuel := (getOptNat j "encFuelNV").getD env.encFuel }
-  let r : Except Err Items :=
-    match how with
-    | "bytes" => read env x validate
-    | "stream" => readStreamObj env (.data x) validate
-    | "stream-oserror" => readStreamObj env .raisesOS validate
-    | "file" => readFile env (.opened (.data x)) validate
-    | "file-oserror" => readFile env (.opened .raisesOS) validate
-    | _ => readFile env .openFails validate
+  let r : Except Err Items := readHow env how x validate
+  -- `xw`: the same input without one key that is outside the model's vocabulary: the model must not tell them apart
+  let without : List (String × Json) ←
+    match j.getObjVal? "xw" with
+    | .error _ => pure []
+    | .ok _ => do
+      let xw ← getHex j "xw"
+      let a := knownView env how x validate
+      let b := knownView env how xw validate
+      pure [("without", jarr (b.map jstr)), ("keyAgree", jbool (a.take 2 == b.take 2)),
+            ("infohashAgree", jbool (a == b))]
   let p := parseU env x
   let hypMem := match p with | .error .memory => false | _ => true
   let hypLen := how != "bytes" || x.length ≤ env.maxSize
@@ -93,12 +120,13 @@ def readOp (j : Json) : Except String Json := do
         -- since 19d011f both a ValueError and a RecursionError of the encoder end as MetainfoError,
         -- so their order cannot be observed any more
         ("encOrder", jbool (true || (match unf with | .ok _ => true | .error _ => false)))])
-  return jobj [("model", jobj (base ++ more)),
+  return jobj (without ++
+              [("model", jobj (base ++ more)),
                ("spec", jobj [("read", jarr (documentedRead.map jstr)),
                               ("returned", jarr (documentedReturned.map jstr))]),
                ("hyp", jbool (hypMem && hypLen)),
                ("hyps", jobj ([("mem", jbool hypMem), ("len", jbool hypLen)] ++ hypT)),
-               ("hypName", jstr "len<=MAX ∧ no length prefix in (memLimit, ssizeMax] is reached")]
+               ("hypName", jstr "len<=MAX ∧ no length prefix in (memLimit, ssizeMax] is reached")])
 
 /-! ### magnets -/
 
@@ -216,6 +244,7 @@ def handle (op : String) (j : Json) : Except String Json :=
   | "c08.xt" => xtOp j
   | "c08.qs" => qsOp j
   | "c08.isspace" => isspaceOp j
+  | "c08.keys" => keysOp j
   | _ => throw s!"unknown op {op}"
 
 end Driver.C08
